@@ -175,7 +175,7 @@ def cuts(data, how):
     raise AssertionError(how)
 
 
-async def drive(data_parts, handler_kind, behaviour, chain_outcome, upload, extra_reads=(), fire_timeout=None, lose_connection_at=None):
+async def drive(data_parts, handler_kind, behaviour, chain_outcome, upload, extra_reads=(), fire_timeout=None, lose_connection_at=None, lose_exc=None, lose_after=False):
     spy = Spy(behaviour)
     handler = spy.sync if handler_kind == "sync" else spy.make_async()
     chain = Chain(chain_outcome) if chain_outcome else None
@@ -193,10 +193,15 @@ async def drive(data_parts, handler_kind, behaviour, chain_outcome, upload, extr
             escaped.append(repr(e))
             t.closed = True   # asyncio aborts the connection when data_received raises
     for i, part in enumerate(data_parts):
-        if lose_connection_at == i:
-            p.connection_lost(None)
+        if lose_connection_at == i and not lose_after:
+            p.connection_lost(lose_exc)
             break
         feed(part)
+        if lose_connection_at == i and lose_after:
+            # the request is complete and its answer still pending (async handler / chain / upload): the peer goes away now
+            t.out_before_loss = t.out
+            p.connection_lost(lose_exc)
+            t.lost = True
         if fire_timeout == i and p.timeout_handle is not None and not p.timeout_handle.cancelled():
             # the event loop runs the callback only if the timer is still armed
             try:
@@ -215,7 +220,7 @@ async def drive(data_parts, handler_kind, behaviour, chain_outcome, upload, extr
     timer_pending = bool(p.timeout_handle) and not p.timeout_handle.cancelled() if p.timeout_handle else False
     if p.timeout_handle:
         p.timeout_handle.cancel()
-    return dict(out=t.out, closed=t.closed, close_calls=t.close_calls, handler_calls=len(spy.calls), chain_calls=list(chain.calls) if chain else None,
+    return dict(out_before_loss=getattr(t, "out_before_loss", None) if getattr(t, "lost", False) else t.out, out=t.out, closed=t.closed, close_calls=t.close_calls, handler_calls=len(spy.calls), chain_calls=list(chain.calls) if chain else None,
                 upload_calls=list(up.calls) if up else None, escaped=escaped, timer_pending=timer_pending, handler_args=list(spy.calls))
 
 
@@ -348,10 +353,12 @@ def bank(focus=None):
                 or line.startswith(b"titan://example.org/up.txt;size=-1") or line == b"titan://example.org/up.txt\r\n"
             if must_refuse and total:
                 bad.append("an invalid request line reached a handler")
-            if must_refuse and complete and not (r["out"].startswith(b"59 ") or (is_titan and not up and r["out"].startswith(b"50 "))):
+            short_line = len(line.split(b"\r\n")[0]) <= 1022
+            titan_disabled = is_titan and not up and complete and short_line
+            if must_refuse and complete and not titan_disabled and not r["out"].startswith(b"59 "):
                 bad.append(f"invalid request answered {r['out'][:20]!r} instead of 59")
-            if is_titan and not up and complete and not r["out"].startswith(b"50 ") and not must_refuse:
-                bad.append(f"titan request with uploads disabled answered {r['out'][:20]!r} instead of 50")
+            if titan_disabled and not r["out"].startswith(b"50 "):
+                bad.append(f"titan:// line with uploads not enabled answered {r['out'][:20]!r} instead of 50 (well-formed or not, it is 50)")
             if not must_refuse and complete and not is_titan and chain not in ("deny", "raise") and r["handler_calls"] != 1:
                 bad.append("a valid request did not reach the handler")
             if is_titan and up and r["upload_calls"]:
@@ -374,6 +381,16 @@ def bank(focus=None):
     r = run(drive([VALID], "async", "ok", "allow", None))
     if r["timer_pending"]:
         return dict(confirmed=True, input=dict(request=VALID.decode()), observed="request timer still armed after the request was dispatched", clause="a timeout never fires once a complete request is being answered")
+    # ---- the peer disappears while the answer is pending (clean close, reset, broken pipe) ------------------
+    for line, kind, chain, up, exc in itertools.product((VALID, b"titan://example.org/up.txt;size=4;mime=text/plain\r\nabcd"), ("async",), (None, "allow"), (None, "ok"),
+                                                        (None, ConnectionResetError("reset"), BrokenPipeError("pipe"))):
+        if line.startswith(b"titan") and not up:
+            continue
+        tried += 1
+        r = run(drive([line], kind, "ok", chain, up, lose_connection_at=0, lose_exc=exc, lose_after=True))
+        if r["out"] != r.get("out_before_loss", r["out"]):
+            return dict(confirmed=True, input=dict(request=repr(line[:60]), handler="async", middleware=chain, event=f"connection_lost({exc!r}) while the answer is pending, then the handler completes"),
+                        observed=dict(written_after_the_loss=repr(r["out"][len(r.get("out_before_loss", b"")):][:60])), clause="nothing at all is written once the client has disconnected")
     # ---- disconnect before the answer --------------------------------------------------------------
     r = run(drive([VALID[:10], VALID[10:]], "sync", "ok", None, None, lose_connection_at=1))
     if r["out"]:
